@@ -22,6 +22,7 @@ func propC14() *Property {
 			{ID: "R14.2", Floor: 4, Text: "maxFragmentSize on MTU 1280..1500 x transport x mode", Run: r14_2},
 			{ID: "R14.3", Floor: 2, Text: "maxPaddingSize on a boundary grid", Run: r14_3},
 			{ID: "R14.4", Floor: 6, Text: "budget wiring at the UDP write sites", Run: r14_4},
+			{ID: "R14.6", Floor: 2, Text: "the configured MTU reaches the underlay unchanged for every value 1280..1500", Run: r14_6},
 			{ID: "R14.5", Floor: 3, Text: "narrow length fields", Run: r14_5},
 		},
 	}
@@ -420,5 +421,85 @@ func assumeLowEntropyParams(C int64) func(v ssa.Value) (cval, bool) {
 			}
 		}
 		return cval{}, false
+	}
+}
+
+// r14_6: the MTU that bounds datagrams is the configured one. The value the
+// endpoint descriptor carries (underlayDescriptor.mtu, the source of every
+// underlay's mtu) is, for every supported setting 1280..1500, the argument
+// given to NewUnderlayProperties - no clamping, defaulting or off-by-one on
+// the way (seed C14d turned exactly 1280 into 1400).
+func r14_6(c *RC) {
+	p := c.P
+	fn := p.Fn(protoPkg, "NewUnderlayProperties")
+	mf := p.Field(protoPkg, "underlayDescriptor", "mtu")
+	if fn == nil || mf == nil {
+		c.Anchor("NewUnderlayProperties / underlayDescriptor.mtu")
+		return
+	}
+	var wrong []string
+	checked := 0
+	for mtu := int64(1280); mtu <= 1500; mtu++ {
+		var stored []cval
+		f := &Folder{P: p, OnStore: func(st *ssa.Store, v cval) {
+			if g, _ := fieldOfAddr(st.Addr); sameField(g, mf) {
+				stored = append(stored, v)
+			}
+		}}
+		outs := f.Eval(fn, []cval{cInt(mtu), {}, {}, {}})
+		if f.Over || len(outs) == 0 {
+			c.Undecided("mtu-carried-unchanged", fn.Pos(), "constant propagation did not finish for mtu %d", mtu)
+			return
+		}
+		if len(stored) == 0 {
+			c.Undecided("mtu-carried-unchanged", fn.Pos(), "no store to underlayDescriptor.mtu observed for mtu %d", mtu)
+			return
+		}
+		checked++
+		for _, v := range stored {
+			if !v.known {
+				wrong = append(wrong, fmtInt(int(mtu))+"->unknown")
+				continue
+			}
+			if got, _ := constant.Int64Val(v.v); got != mtu {
+				wrong = append(wrong, fmtInt(int(mtu))+"->"+fmtInt(int(got)))
+			}
+		}
+	}
+	if len(wrong) == 0 {
+		c.OKH("mtu-carried-unchanged", fn.Pos(), "for each of the %d supported MTU values the descriptor stores the configured value", checked)
+	} else {
+		if len(wrong) > 6 {
+			wrong = append(wrong[:6], "...")
+		}
+		c.Bad("mtu-carried-unchanged", fn.Pos(), "NewUnderlayProperties does not carry the configured MTU unchanged (%s): fragment sizes and padding budgets are then computed for another MTU than the one the operator set, and datagrams exceed it", strings.Join(wrong, ", "))
+	}
+	// every underlay's mtu field is fed from the descriptor's MTU() (or a parameter that is)
+	n := 0
+	bm := p.Field(protoPkg, "baseUnderlay", "mtu")
+	for _, s := range p.FieldStores(bm) {
+		n++
+		key := "underlay-mtu-source@" + fnName(s.Fn)
+		good := false
+		for _, l := range Leaves(s.Val, nil) {
+			switch x := l.(type) {
+			case *ssa.Parameter:
+				if x.Name() == "mtu" {
+					good = true
+				}
+			case *ssa.Call:
+				if calleeName(x) == "MTU" {
+					good = true
+				}
+			}
+		}
+		if good {
+			c.OK(key, s.Pos(), "baseUnderlay.mtu = the mtu handed to the constructor")
+		} else {
+			c.Bad(key, s.Pos(), "baseUnderlay.mtu is set from %s", describe(s.Val))
+		}
+	}
+	if n == 0 {
+		c.Undecided("underlay-mtu-source", token.NoPos, "no store to baseUnderlay.mtu found")
 	}
 }
